@@ -34,6 +34,14 @@ CLAIMED = {
          'plug classes / instances are opaque objects (construction, tearDown, uses_base_tear_down, issubclass are uninterpreted); Thread.start is trusted to run '
          'the tearDown; provide_plugs (same instance under the requested name), the executor-level order relative to output callbacks and "abandoned after '
          'the timeout" (kill delivery) are not decided here'),
+ 'C09': ('the whole of Test.execute: refuses (InvalidTestStateError, nothing started) iff an executor is already attached, tested and filled inside one '
+         'critical section of Test._lock; re-waits once after a KeyboardInterrupt and re-raises it; finalize() only after the executor thread has finished; '
+         'every registered output callback is called exactly once, in registration order, with one and the same record, also when callbacks raise and on the '
+         'KeyboardInterrupt exit; the executor slot and the TEST_INSTANCES entry are released on every exit; returns True iff the record outcome is PASS; '
+         'TestExecutor.finalize sets the default DUT id when the test never set one',
+         'TestExecutor.wait / __init__ / close, duplicate-name checks, console output and profiling are used by (trusted) contract; "a finished executor thread '
+         'has finalized its record" links to the C01 contracts of the executor and is assumed here; test_start given as a lambda is outside the subset; '
+         'record-completeness clauses (every phase record has outcome / options / start <= end) are C05 / C01 matters'),
  'C13': ('header = six little-endian words (command, arg0, arg1, length, byte sum, command xor 0xFFFFFFFF), receipt validation '
          '(short/empty header, unknown command, length or checksum mismatch are rejected), payload-after-header on every exit, '
          'every transport write/read inside one critical section of the writer/reader lock',
